@@ -121,7 +121,7 @@ CHECKS = {
         level="exploration",
         quick=NATIVE, thorough=NATIVE,
         rule="streams = sequences of (dedup|plain, string) writes; exhaustive over all sequences up to the stated length, random beyond; non-trivial = contains at least one repeat of a deduplicated string (a back-reference is written); distinct by write sequence / by (type, bytes) for record subjects",
-        floors={"any": {"back_references_checked": 10000, "no_repeat_streams_identical_to_plain": 1000, "unknown_ids_rejected": 10000, "records_with_names_in_header_ok": 500, "streams:many_ids": 2}},
+        floors={"any": {"streams_with_strings_and_tracked_objects_ok": 1, "back_references_checked": 10000, "no_repeat_streams_identical_to_plain": 1000, "unknown_ids_rejected": 10000, "records_with_names_in_header_ok": 500, "streams:many_ids": 2}},
     ),
     "C10": dict(
         claim="Held on N observed executions: every rooted graph with at most 3 nodes (4 in the thorough tier) and out-degree at most 2, and random graphs up to 200 nodes, is encoded with a harness-owned codec that offers node addresses as identities through the public API; bytes must equal the graph model (new marker + body on first offer, 1-based first-encounter number afterwards, pre-order), the decoded graph must be isomorphic with identical sharing (pointer equality), and streams citing an object number never introduced must fail with InvalidRefId. The Miri lane runs the same on small graphs under an interpreter that makes vtable addresses non-unique. The same codec is also exercised as a field of version-0 and evolved records (two graph fields, the second citing the first), and on wide graphs with 16 500 objects.",
@@ -187,7 +187,7 @@ CHECKS = {
         level="fault_enumeration",
         quick=NATIVE, thorough=NATIVE + [("asan", 0.3)],
         rule="faults: truncation at every offset, bit flip at every bit (small frames), header rewrites to {0, -1, +1, x2, 2^31, 2^32-1}; non-trivial = all; distinct by frame bytes",
-        floors={"any": {"block_beyond_the_length_field_rejected": 1, "frames_round_trip": 300, "truncations_rejected": 5000, "corrupted_ok:bitflip": 1000, "corrupted_err:bitflip": 1000, "frames_identical_through_contexts_and_size_exact": 300}},
+        floors={"any": {"blocks_into_a_compressing_sink_ok": 100, "frames_round_trip": 300, "truncations_rejected": 5000, "corrupted_ok:bitflip": 1000, "corrupted_err:bitflip": 1000, "frames_identical_through_contexts_and_size_exact": 300}},
     ),
     "C17": dict(
         claim="Held on N observed executions: all 1 112 064 Unicode scalar values are encoded (BMP: 2 bytes big-endian; others: UnsupportedCharacter with that character); zero-sized sequences, slices and exact-size iterators of length i32::MAX+1 .. usize::MAX give LengthTooLarge (4 GiB / 2 GiB byte and string buffers in the thorough tier); a declaration referencing an unknown field gives UnknownFieldReferenceInEvolutionStep through every sink; a declaration with the maximum of 255 metadata steps round-trips; value-domain extremes of the time and big-number types; and generated values of every subject type (astral characters allowed) give Ok or exactly the documented error predicted by the reference encoder. A panic or an undocumented variant is a violation.",
@@ -209,7 +209,7 @@ CHECKS = {
         thorough=[("dbg", 1.0), ("rel", 1.0), ("dbg", 1.0, {"mode": "baseline"}), ("rel", 1.0, {"mode": "baseline"}), ("tsan", 0.2), ("tsan", 0.2, {"mode": "baseline"})],
         custom="c18_miri_probe",
         rule="a case = one call (encode + decode of a generated value) compared with the reference; distinct_nontrivial counts first-use storms (one per type and process: the contended initialisation of that type's lazy statics) plus Miri schedule seeds; floor: at least 200 storms with two or more first calls in flight together",
-        floors={"any": {"storms_with_overlapping_first_calls": 200, "call_histories": 1000, "steady_state_calls": 100000, "miri_schedule_seeds_ok": 8}},
+        floors={"any": {"defaults_evaluated_for_each_call": 1, "storms_with_overlapping_first_calls": 200, "call_histories": 1000, "steady_state_calls": 100000, "miri_schedule_seeds_ok": 8}},
         post=lambda counters: [
             (f"C18|metadata_built_differs|{k.split(':', 2)[2]}",
              dict(check="C18", mode="init_counter", process=k, under_contention=v, single_threaded=counters.get(k.replace(":storm:", ":baseline:"))))
@@ -227,7 +227,7 @@ CHECKS = {
         thorough=[("dbg", 1.0), ("asan", 1.0), ("msan", 0.3), ("memcheck", 0.1), ("miri", 0.02, {"shards": 16})],
         custom="c19_witnesses",
         rule="part 1: one case per witness; part 2: (type, input) pairs through the unsafe decode paths, plus tampered encodings read by lenient client codecs (a nested decode fails, the client carries on) from allocations of exactly the input length, distinct by (type, input)",
-        floors={"any": {"witnesses_rejected_by_the_compiler": 6, "negative_controls_clean": 2, "no_ub_witnesses_clean": 2, "types_with_unsafe_decode_paths": 50, "tolerant:nested_failure_survived": 1000}},
+        floors={"any": {"witnesses_rejected_by_the_compiler": 7, "negative_controls_clean": 2, "no_ub_witnesses_clean": 2, "types_with_unsafe_decode_paths": 50, "tolerant:nested_failure_survived": 1000}},
     ),
 }
 
